@@ -311,25 +311,25 @@ pub fn ref_checksum(i: usize, n: usize) -> u32 {
     s
 }
 
-/// value of the `truncate` flag of an `OpenOptions` (which has no getters): the byte that differs between an
-/// options value with and without the flag is located once, on concrete values, and read from `o`
-pub fn opt_truncate(o: &OpenOptions) -> bool {
-    const N: usize = std::mem::size_of::<OpenOptions>();
-    let a = OpenOptions::new();
-    let mut b = OpenOptions::new();
-    b.truncate(true);
-    let (pa, pb, po) = (&a as *const OpenOptions as *const u8, &b as *const OpenOptions as *const u8, o as *const OpenOptions as *const u8);
-    let mut k = 0;
-    let mut r = false;
-    while k < N {
-        unsafe {
-            if *pa.add(k) != *pb.add(k) {
-                r = *po.add(k) == *pb.add(k);
-            }
-        }
-        k += 1;
+/// value of the `truncate` flag of an `OpenOptions` (which has no getters). Verification: stub S8 replaces
+/// `OpenOptions::truncate` and records the argument (one flag: reset by the `open` that consumes it). Native replay:
+/// no stub is active, the flag is read from the Debug rendering.
+pub static mut TRUNC_REQUESTED: bool = false;
+pub fn truncate_stub(o: &mut OpenOptions, t: bool) -> &mut OpenOptions {
+    unsafe { TRUNC_REQUESTED = t };
+    o
+}
+#[cfg(not(test))]
+pub fn opt_truncate(_o: &OpenOptions) -> bool {
+    unsafe {
+        let r = TRUNC_REQUESTED;
+        TRUNC_REQUESTED = false;
+        r
     }
-    r
+}
+#[cfg(test)]
+pub fn opt_truncate(o: &OpenOptions) -> bool {
+    format!("{:?}", o).contains("truncate: true")
 }
 
 // ------------------------------------------------------------------------------------------------ model FileStore
@@ -673,7 +673,7 @@ pub fn stage_shape(p: &mut RecvParts<ModelFs>, shape: u8) -> ([u64; 4], usize) {
 /// segment list with k strictly ascending, non-adjacent symbolic segments below `limit`
 pub fn any_segments(k: usize, limit: u64) -> (Segments, [u64; 4]) {
     let mut b = [0u64; 4];
-    let mut s = Segments::new();
+    let mut v = Vec::with_capacity(4);
     let mut prev: u64 = 0;
     let mut i = 0;
     while i < k {
@@ -683,11 +683,12 @@ pub fn any_segments(k: usize, limit: u64) -> (Segments, [u64; 4]) {
         if i > 0 {
             kani::assume(lo > prev);
         }
-        s.merge((lo, hi));
+        v.push((lo, hi));
         b[2 * i] = lo;
         b[2 * i + 1] = hi;
         prev = hi;
         i += 1;
     }
-    (s, b)
+    // built directly (hook): every list satisfying the representation invariant with k entries
+    (Segments::verif_from(v), b)
 }
